@@ -1,3 +1,702 @@
 (* Link/ReaderProofs.v — read buffer invariants and chunking independence. *)
-From Dnp3V Require Import Link.Reader Link.ParserProofs.
+From Dnp3V Require Import Link.Reader Link.CrcProofs Link.ParserProofs Link.ParserIncr.
 Open Scope N_scope.
+
+(* ---------- facts about `parse` that hold in both error modes -------------------------------- *)
+
+Lemma parse_mode_extends_needmore mode st a st1 r1 b :
+  parse mode st a = (st1, r1, PNeedMore) -> parse mode st (a ++ b) = parse mode st1 (r1 ++ b).
+Proof.
+  destruct mode.
+  - cbn [parse]. apply parse_impl_extends_needmore.
+  - rewrite !parse_discard_scan. intro H. pose proof (scan_extends a b) as E. rewrite H in E. exact E.
+Qed.
+
+Lemma parse_mode_extends_frame mode st a st1 r1 h p b :
+  parse mode st a = (st1, r1, PFrame h p) -> parse mode st (a ++ b) = (st1, r1 ++ b, PFrame h p).
+Proof.
+  destruct mode.
+  - cbn [parse]. apply parse_impl_extends_frame.
+  - rewrite !parse_discard_scan. intro H. pose proof (scan_extends a b) as E. rewrite H in E. exact E.
+Qed.
+
+Lemma parse_mode_extends_err mode st a st1 r1 e b :
+  parse mode st a = (st1, r1, PErr e) -> parse mode st (a ++ b) = (st1, r1 ++ b, PErr e).
+Proof.
+  destruct mode.
+  - cbn [parse]. apply parse_impl_extends_err.
+  - rewrite !parse_discard_scan. intro H. pose proof (scan_extends a b) as E. rewrite H in E. exact E.
+Qed.
+
+Lemma parse_mode_idem mode st a st1 r1 :
+  parse mode st a = (st1, r1, PNeedMore) -> parse mode st1 r1 = (st1, r1, PNeedMore).
+Proof.
+  destruct mode.
+  - cbn [parse]. apply parse_impl_needmore_idem.
+  - rewrite !parse_discard_scan. intro H. pose proof (scan_consumes a) as C. rewrite H in C.
+    destruct C as (-> & _ & C). exact C.
+Qed.
+
+Lemma parse_mode_suffix mode st a st1 r1 res :
+  parse mode st a = (st1, r1, res) -> exists p, a = p ++ r1.
+Proof.
+  destruct mode.
+  - cbn [parse]. apply parse_impl_suffix.
+  - rewrite parse_discard_scan. intro H. pose proof (scan_consumes a) as C. rewrite H in C. apply C.
+Qed.
+
+Lemma parse_mode_frame_state mode st a st1 r1 h p :
+  parse mode st a = (st1, r1, PFrame h p) -> st1 = FindSync1.
+Proof.
+  destruct mode.
+  - cbn [parse]. intro H. pose proof (parse_impl_consumes st a) as C. rewrite H in C. apply C.
+  - rewrite parse_discard_scan. intro H. pose proof (scan_consumes a) as C. rewrite H in C. apply C.
+Qed.
+
+Lemma parse_mode_frame_strict mode st a st1 r1 h p : st_ok st ->
+  parse mode st a = (st1, r1, PFrame h p) -> (length r1 < length a)%nat.
+Proof.
+  intro Hs. destruct mode.
+  - cbn [parse]. intro H. apply (parse_impl_frame_strict st a st1 r1 h p Hs H).
+  - rewrite parse_discard_scan. intro H. pose proof (scan_consumes a) as C. rewrite H in C. apply C.
+Qed.
+
+Lemma parse_mode_needmore_st_ok mode st a st1 r1 :
+  parse mode st a = (st1, r1, PNeedMore) -> st_ok st1.
+Proof.
+  destruct mode.
+  - cbn [parse]. apply parse_impl_needmore_st_ok.
+  - rewrite parse_discard_scan. intro H. pose proof (scan_consumes a) as C. rewrite H in C.
+    destruct C as (-> & _). exact I.
+Qed.
+
+(* KEY FACT: after `parse` asks for more data the bytes it leaves in the buffer are fewer than a
+   maximal frame.  Close mode: the leftover of parse_impl; Discard mode: the incomplete candidate *)
+Theorem parse_needmore_leftover : forall mode st a st1 r1,
+  pstate_ok st -> bytes_ok a -> parse mode st a = (st1, r1, PNeedMore) ->
+  pstate_ok st1 /\ (length r1 < 292)%nat.
+Proof.
+  intros mode st a st1 r1 Hst Hb. destruct mode.
+  - cbn [parse]. intro H. apply parse_impl_needmore_bound in H; try assumption.
+    destruct H as (_ & H1 & H2). split; [exact H1|lia].
+  - rewrite parse_discard_scan. intro H. split.
+    + pose proof (scan_consumes a) as C. rewrite H in C. destruct C as (-> & _). exact I.
+    + apply scan_needmore_bound with (1 := Hb) (2 := H).
+Qed.
+
+Lemma parse_mode_init mode : parse mode FindSync1 [] = (FindSync1, [], PNeedMore).
+Proof. destruct mode; reflexivity. Qed.
+
+(* ---------- unfolding lemmas for the reader ------------------------------------------------------ *)
+
+Lemma step_parse_nil cfg rs : r_unread rs = [] ->
+  step_parse cfg rs = ({| r_begin := 0; r_unread := []; r_pstate := r_pstate rs |}, None).
+Proof. intro H. unfold step_parse. rewrite H. reflexivity. Qed.
+
+Lemma step_parse_cons cfg rs : r_unread rs <> [] ->
+  step_parse cfg rs =
+  match parse (r_mode cfg) (r_pstate rs) (r_unread rs) with
+  | (st', rest, PFrame h p) =>
+      ({| r_begin := r_end rs - length rest; r_unread := rest; r_pstate := st' |}, Some (RFrame h p))
+  | (st', rest, PErr e) => (rs, Some (RErr (RParse e)))
+  | (st', rest, PNeedMore) =>
+      match r_read cfg with
+      | Datagram => (rstate_init, None)
+      | Stream => ({| r_begin := r_end rs - length rest; r_unread := rest; r_pstate := st' |}, None)
+      end
+  end.
+Proof. intro H. unfold step_parse. destruct (r_unread rs); [congruence|reflexivity]. Qed.
+
+Lemma read_frame_nil cfg rs :
+  read_frame cfg [] rs =
+  match step_parse cfg rs with
+  | (rs1, Some r) => (rs1, [], r)
+  | (rs1, None) => (shift_if_full cfg rs1, [], RBlocked)
+  end.
+Proof. reflexivity. Qed.
+
+Lemma read_frame_cons cfg c reads rs :
+  read_frame cfg (c :: reads) rs =
+  match step_parse cfg rs with
+  | (rs1, Some r) => (rs1, c :: reads, r)
+  | (rs1, None) =>
+      if (r_writable cfg (shift_if_full cfg rs1) <? length c)%nat
+      then (shift_if_full cfg rs1, reads, ROverflow)
+      else match c with
+           | [] => (shift_if_full cfg rs1, reads, RErr REof)
+           | _ => read_frame cfg reads (append_read (shift_if_full cfg rs1) c)
+           end
+  end.
+Proof. reflexivity. Qed.
+
+Lemma feed_loop_S f cfg reads rs :
+  feed_loop (S f) cfg reads rs =
+  match read_frame cfg reads rs with
+  | (rs', reads', RFrame h p) =>
+      let '(rs'', obs, go) := feed_loop f cfg reads' rs' in (rs'', OFrame h p :: obs, go)
+  | (rs', _, RBlocked) => (rs', [], true)
+  | (rs', _, RErr e) => (rs', [OErr e], false)
+  | (rs', _, ROverflow) => (rs', [OOverflow], false)
+  end.
+Proof. reflexivity. Qed.
+
+Lemma shift_pstate cfg rs : r_pstate (shift_if_full cfg rs) = r_pstate rs.
+Proof. unfold shift_if_full. destruct (r_end rs =? r_cap cfg)%nat; reflexivity. Qed.
+
+Lemma shift_unread cfg rs : r_unread (shift_if_full cfg rs) = r_unread rs.
+Proof. unfold shift_if_full. destruct (r_end rs =? r_cap cfg)%nat; reflexivity. Qed.
+
+Lemma shift_init cfg : shift_if_full cfg rstate_init = rstate_init.
+Proof. unfold shift_if_full. destruct (r_end rstate_init =? r_cap cfg)%nat; reflexivity. Qed.
+
+Lemma shift_end_le cfg rs : (r_end (shift_if_full cfg rs) <= r_end rs)%nat.
+Proof.
+  unfold shift_if_full. destruct (r_end rs =? r_cap cfg)%nat; [|lia]. unfold r_end. cbn [r_begin r_unread]. lia.
+Qed.
+
+(* ---------- 3. the read buffer invariant ------------------------------------------------------- *)
+
+Lemma num_link_frames_bound frag : (293 <= read_buffer_size frag)%nat.
+Proof.
+  unfold read_buffer_size. change (N.to_nat c_max_link_frame_length) with 292%nat.
+  destruct (num_link_frames frag =? 0)%nat eqn:E; [lia|]. apply Nat.eqb_neq in E. lia.
+Qed.
+
+Definition rs_inv (cfg : rcfg) (rs : rstate) : Prop :=
+  (r_begin rs + length (r_unread rs) <= r_cap cfg)%nat /\
+  pstate_ok (r_pstate rs) /\ st_ok (r_pstate rs) /\ bytes_ok (r_unread rs).
+
+Lemma rs_inv_init cfg : rs_inv cfg rstate_init.
+Proof. unfold rs_inv. cbn. split; [lia|]. split; [exact I|]. split; [exact I|constructor]. Qed.
+
+Lemma bytes_ok_suffix p r : bytes_ok (p ++ r) -> bytes_ok r.
+Proof. intro H. apply bytes_ok_app in H. apply H. Qed.
+
+(* one pass through the parsing half of the loop keeps the invariant; when it decides to read,
+   fewer than 292 bytes are pending *)
+Lemma step_parse_inv cfg rs rs1 o : rs_inv cfg rs -> step_parse cfg rs = (rs1, o) ->
+  rs_inv cfg rs1 /\ (r_end rs1 <= r_end rs)%nat /\ (o = None -> (length (r_unread rs1) < 292)%nat).
+Proof.
+  intros (Hcap & Hps & Hso & Hb) H. unfold r_end.
+  destruct (nil_or_not (r_unread rs)) as [Eu|Eu].
+  - rewrite step_parse_nil in H by assumption. inversion H; subst. unfold rs_inv.
+    cbn [r_begin r_unread r_pstate length].
+    split; [|split; [lia|intros _; lia]].
+    split; [lia|]. split; [assumption|]. split; [assumption|constructor].
+  - rewrite step_parse_cons in H by assumption.
+    destruct (parse (r_mode cfg) (r_pstate rs) (r_unread rs)) as [[st' rest] [|h p|e]] eqn:Ep.
+    + destruct (r_read cfg).
+      * inversion H; subst. destruct (parse_mode_suffix _ _ _ _ _ _ Ep) as [q Hq].
+        destruct (parse_needmore_leftover _ _ _ _ _ Hps Hb Ep) as [Hps' Hlen].
+        pose proof (parse_mode_needmore_st_ok _ _ _ _ _ Ep) as Hso'.
+        assert (Hle : (length rest <= length (r_unread rs))%nat) by (rewrite Hq, app_length; lia).
+        unfold rs_inv, r_end. cbn [r_begin r_unread r_pstate].
+        split; [|split; [lia|intros _; exact Hlen]].
+        split; [lia|]. split; [assumption|]. split; [assumption|].
+        rewrite Hq in Hb. apply bytes_ok_suffix in Hb. exact Hb.
+      * inversion H; subst. split; [apply rs_inv_init|]. cbn [rstate_init r_begin r_unread length].
+        split; [lia|]. intros _. lia.
+    + inversion H; subst. destruct (parse_mode_suffix _ _ _ _ _ _ Ep) as [q Hq].
+      pose proof (parse_mode_frame_state _ _ _ _ _ _ _ Ep) as ->.
+      assert (Hle : (length rest <= length (r_unread rs))%nat) by (rewrite Hq, app_length; lia).
+      unfold rs_inv, r_end. cbn [r_begin r_unread r_pstate].
+      split; [|split; [lia|discriminate]].
+      split; [lia|]. split; [exact I|]. split; [exact I|].
+      rewrite Hq in Hb. apply bytes_ok_suffix in Hb. exact Hb.
+    + inversion H; subst. split; [|split; [lia|discriminate]].
+      unfold rs_inv. split; [assumption|]. split; [assumption|]. split; assumption.
+Qed.
+
+Lemma shift_inv cfg rs : rs_inv cfg rs -> rs_inv cfg (shift_if_full cfg rs).
+Proof.
+  intros (Hcap & Hps & Hso & Hb). unfold rs_inv. rewrite shift_pstate, shift_unread.
+  pose proof (shift_end_le cfg rs) as Hle. unfold r_end in Hle. rewrite shift_unread in Hle.
+  repeat split; try assumption. lia.
+Qed.
+
+(* THE READER NEVER OFFERS AN EMPTY SLICE: whenever the loop is about to read, there is room *)
+Theorem ready_to_read_has_space : forall cfg rs rs1, (293 <= r_cap cfg)%nat -> rs_inv cfg rs ->
+  step_parse cfg rs = (rs1, None) -> (0 < r_writable cfg (shift_if_full cfg rs1))%nat.
+Proof.
+  intros cfg rs rs1 Hc Hinv H. destruct (step_parse_inv _ _ _ _ Hinv H) as ((Hcap & _) & _ & Hlen).
+  specialize (Hlen eq_refl). unfold r_writable, shift_if_full, r_end in *.
+  destruct (r_begin rs1 + length (r_unread rs1) =? r_cap cfg)%nat eqn:E.
+  - cbn [r_begin r_unread]. lia.
+  - apply Nat.eqb_neq in E. lia.
+Qed.
+
+Lemma append_inv cfg rs c : rs_inv cfg rs -> bytes_ok c -> (length c <= r_writable cfg rs)%nat ->
+  c <> [] -> rs_inv cfg (append_read rs c).
+Proof.
+  intros (Hcap & Hps & Hso & Hb) Hc Hw Hne. unfold rs_inv, append_read, r_writable, r_end in *.
+  cbn [r_begin r_unread r_pstate]. rewrite app_length. repeat split; try assumption.
+  - lia.
+  - apply bytes_ok_app. split; assumption.
+Qed.
+
+(* a result produced by the parsing half is a frame or a parse error *)
+Lemma step_parse_some_not_blocked cfg rs rs1 r : step_parse cfg rs = (rs1, Some r) -> r <> RBlocked.
+Proof.
+  intros H Hr. subst r. destruct (nil_or_not (r_unread rs)) as [Eu|Eu].
+  - rewrite step_parse_nil in H by assumption. discriminate.
+  - rewrite step_parse_cons in H by assumption.
+    destruct (parse (r_mode cfg) (r_pstate rs) (r_unread rs)) as [[st' rest] [|h p|e]]; try discriminate.
+    destruct (r_read cfg); discriminate.
+Qed.
+
+(* the invariant along read_frame; WHENEVER read_frame RETURNS RBlocked, I.E. IS ABOUT TO READ, THE
+   WRITABLE SPACE IS NOT EMPTY *)
+Theorem read_frame_inv : forall cfg, (293 <= r_cap cfg)%nat -> forall reads rs rs' reads' r,
+  rs_inv cfg rs -> Forall bytes_ok reads -> read_frame cfg reads rs = (rs', reads', r) ->
+  rs_inv cfg rs' /\ Forall bytes_ok reads' /\ (r = RBlocked -> (0 < r_writable cfg rs')%nat).
+Proof.
+  intros cfg Hc. induction reads as [|c reads IH]; intros rs rs' reads' r Hinv Hreads H.
+  - rewrite read_frame_nil in H. destruct (step_parse cfg rs) as [rs1 [r0|]] eqn:Es.
+    + inversion H; subst. destruct (step_parse_inv _ _ _ _ Hinv Es) as (Hinv1 & _).
+      split; [exact Hinv1|]. split; [constructor|]. intro Hr. exfalso.
+      apply (step_parse_some_not_blocked _ _ _ _ Es Hr).
+    + inversion H; subst. destruct (step_parse_inv _ _ _ _ Hinv Es) as (Hinv1 & _).
+      split; [apply shift_inv; exact Hinv1|]. split; [constructor|]. intros _.
+      apply ready_to_read_has_space with (rs := rs); assumption.
+  - rewrite read_frame_cons in H. inversion Hreads as [|? ? Hcb Hreads']; subst.
+    destruct (step_parse cfg rs) as [rs1 [r0|]] eqn:Es.
+    + inversion H; subst. destruct (step_parse_inv _ _ _ _ Hinv Es) as (Hinv1 & _).
+      split; [exact Hinv1|]. split; [assumption|]. intro Hr. exfalso.
+      apply (step_parse_some_not_blocked _ _ _ _ Es Hr).
+    + destruct (step_parse_inv _ _ _ _ Hinv Es) as (Hinv1 & _).
+      pose proof (shift_inv _ _ Hinv1) as Hinv2.
+      destruct (r_writable cfg (shift_if_full cfg rs1) <? length c)%nat eqn:Ew.
+      * inversion H; subst. split; [exact Hinv2|]. split; [assumption|]. discriminate.
+      * apply Nat.ltb_ge in Ew. destruct c as [|x c].
+        -- inversion H; subst. split; [exact Hinv2|]. split; [assumption|]. discriminate.
+        -- apply IH with (3 := H); [|assumption]. apply append_inv; try assumption. discriminate.
+Qed.
+
+Lemma feed_loop_inv cfg : (293 <= r_cap cfg)%nat -> forall f reads rs rs' obs go,
+  rs_inv cfg rs -> Forall bytes_ok reads -> feed_loop f cfg reads rs = (rs', obs, go) ->
+  rs_inv cfg rs' /\ (go = true -> (0 < r_writable cfg rs')%nat).
+Proof.
+  intro Hc. induction f as [|f IH]; intros reads rs rs' obs go Hinv Hreads H.
+  - cbn [feed_loop] in H. inversion H; subst. split; [assumption|discriminate].
+  - rewrite feed_loop_S in H. destruct (read_frame cfg reads rs) as [[rs1 reads1] r] eqn:Er.
+    destruct (read_frame_inv cfg Hc _ _ _ _ _ Hinv Hreads Er) as (Hinv1 & Hreads1 & Hbl).
+    destruct r as [h p|e| |].
+    + destruct (feed_loop f cfg reads1 rs1) as [[rs2 obs2] go2] eqn:Ef. inversion H; subst.
+      apply IH with (3 := Ef); assumption.
+    + inversion H; subst. split; [assumption|discriminate].
+    + inversion H; subst. split; [assumption|]. intros _. apply Hbl. reflexivity.
+    + inversion H; subst. split; [assumption|discriminate].
+Qed.
+
+(* every state the session can be in between two physical reads *)
+Inductive reachable (cfg : rcfg) : rstate -> Prop :=
+| reach_init : reachable cfg rstate_init
+| reach_feed rs c rs' obs go : reachable cfg rs -> bytes_ok c -> feed cfg rs c = (rs', obs, go) ->
+    reachable cfg rs'.
+
+Lemma reachable_inv cfg rs : (293 <= r_cap cfg)%nat -> reachable cfg rs -> rs_inv cfg rs.
+Proof.
+  intros Hc H. induction H as [|rs c rs' obs go Hr IH Hb Hf]; [apply rs_inv_init|].
+  unfold feed in Hf. apply (feed_loop_inv cfg Hc) in Hf; [apply Hf|exact IH|].
+  constructor; [exact Hb|constructor].
+Qed.
+
+Theorem readbuffer_inv : forall cfg frag rs, r_cap cfg = read_buffer_size frag -> reachable cfg rs ->
+  (r_begin rs + length (r_unread rs) <= r_cap cfg)%nat.
+Proof.
+  intros cfg frag rs Hcap Hr. apply reachable_inv in Hr; [apply Hr|].
+  rewrite Hcap. apply num_link_frames_bound.
+Qed.
+
+(* a feed that ends with the reader waiting for the next physical read (go = true: read_frame
+   returned RBlocked) leaves room in the buffer: the slice offered to the socket is not empty *)
+Theorem readbuffer_space : forall cfg frag rs c rs' obs, r_cap cfg = read_buffer_size frag ->
+  reachable cfg rs -> bytes_ok c -> feed cfg rs c = (rs', obs, true) -> (0 < r_writable cfg rs')%nat.
+Proof.
+  intros cfg frag rs c rs' obs Hcap Hr Hb Hf.
+  assert (Hc : (293 <= r_cap cfg)%nat) by (rewrite Hcap; apply num_link_frames_bound).
+  apply reachable_inv in Hr; [|exact Hc]. unfold feed in Hf.
+  apply (feed_loop_inv cfg Hc) in Hf; [apply Hf; reflexivity|exact Hr|].
+  constructor; [exact Hb|constructor].
+Qed.
+
+(* ---------- 4. chunking independence ------------------------------------------------------------ *)
+
+(* the whole-stream reference: parse from FindSync1 on what remains, collect the frames, stop at
+   the first error, end when the parser wants more.  Fuel = length + 1 (a frame consumes bytes) *)
+Fixpoint frames_of_fuel (fuel : nat) (mode : error_mode) (stream : list N) : list robs :=
+  match fuel with
+  | O => []
+  | S f =>
+      match parse mode FindSync1 stream with
+      | (_, rest, PFrame h p) => OFrame h p :: frames_of_fuel f mode rest
+      | (_, _, PErr e) => [OErr (RParse e)]
+      | (_, _, PNeedMore) => []
+      end
+  end.
+
+Definition frames_of (mode : error_mode) (stream : list N) : list robs :=
+  frames_of_fuel (S (length stream)) mode stream.
+
+(* the same, starting in the middle of a frame: first step from state st *)
+Definition frames_from (mode : error_mode) (st : pstate) (cur : list N) : list robs :=
+  match parse mode st cur with
+  | (_, rest, PFrame h p) => OFrame h p :: frames_of mode rest
+  | (_, _, PErr e) => [OErr (RParse e)]
+  | (_, _, PNeedMore) => []
+  end.
+
+Lemma frames_of_fuel_irrelevant mode : forall f1 f2 s, (length s < f1)%nat -> (length s < f2)%nat ->
+  frames_of_fuel f1 mode s = frames_of_fuel f2 mode s.
+Proof.
+  induction f1 as [|f1 IH]; intros f2 s H1 H2; [lia|]. destruct f2 as [|f2]; [lia|].
+  cbn [frames_of_fuel]. destruct (parse mode FindSync1 s) as [[st' rest] [|h p|e]] eqn:Ep; try reflexivity.
+  f_equal. pose proof (parse_mode_frame_strict _ FindSync1 _ _ _ _ _ I Ep) as Hlt. apply IH; lia.
+Qed.
+
+Lemma frames_of_unfold mode s : frames_of mode s = frames_from mode FindSync1 s.
+Proof.
+  unfold frames_of, frames_from. cbn [frames_of_fuel].
+  destruct (parse mode FindSync1 s) as [[st' rest] [|h p|e]] eqn:Ep; try reflexivity.
+  f_equal. pose proof (parse_mode_frame_strict _ FindSync1 _ _ _ _ _ I Ep) as Hlt.
+  apply frames_of_fuel_irrelevant; lia.
+Qed.
+
+Lemma frames_from_needmore mode st a st1 r1 X : parse mode st a = (st1, r1, PNeedMore) ->
+  frames_from mode st (a ++ X) = frames_from mode st1 (r1 ++ X).
+Proof. intro H. unfold frames_from. rewrite (parse_mode_extends_needmore _ _ _ _ _ X H). reflexivity. Qed.
+
+Lemma frames_from_frame mode st a st1 r1 h p X : parse mode st a = (st1, r1, PFrame h p) ->
+  frames_from mode st (a ++ X) = OFrame h p :: frames_from mode FindSync1 (r1 ++ X).
+Proof.
+  intro H. unfold frames_from at 1. rewrite (parse_mode_extends_frame _ _ _ _ _ _ _ X H).
+  rewrite frames_of_unfold. reflexivity.
+Qed.
+
+Lemma frames_from_err mode st a st1 r1 e X : parse mode st a = (st1, r1, PErr e) ->
+  frames_from mode st (a ++ X) = [OErr (RParse e)].
+Proof. intro H. unfold frames_from. rewrite (parse_mode_extends_err _ _ _ _ _ _ X H). reflexivity. Qed.
+
+(* a state in which the reader waits for input: parsing again changes nothing *)
+Definition quiet (mode : error_mode) (rs : rstate) : Prop :=
+  parse mode (r_pstate rs) (r_unread rs) = (r_pstate rs, r_unread rs, PNeedMore).
+
+Lemma quiet_init mode : quiet mode rstate_init.
+Proof. apply parse_mode_init. Qed.
+
+Lemma quiet_st_ok mode rs : quiet mode rs -> st_ok (r_pstate rs).
+Proof. apply parse_mode_needmore_st_ok. Qed.
+
+Definition has_err (obs : list robs) : bool :=
+  existsb (fun o => match o with OErr _ => true | _ => false end) obs.
+
+(* draining the buffer once nothing more is queued: the frames delivered are those of the
+   reference on the buffered bytes, and what the reference would deliver on a longer stream is
+   this followed by what it delivers from the reader's new state *)
+Lemma drain_spec cfg : forall f rs,
+  (length (r_unread rs) < f)%nat -> st_ok (r_pstate rs) -> (r_unread rs = [] -> r_pstate rs = FindSync1) ->
+  let '(rs', obs, go) := feed_loop f cfg [] rs in
+  (forall X, r_read cfg = Stream \/ X = [] ->
+     frames_from (r_mode cfg) (r_pstate rs) (r_unread rs ++ X)
+     = obs ++ (if go then frames_from (r_mode cfg) (r_pstate rs') (r_unread rs' ++ X) else [])) /\
+  (go = true -> quiet (r_mode cfg) rs' /\ (r_read cfg = Datagram -> rs' = rstate_init)) /\
+  ~ In OStall obs /\ ~ In OOverflow obs /\ has_err obs = negb go.
+Proof.
+  induction f as [|f IH]; intros rs Hf Hso Hnil; [lia|].
+  rewrite feed_loop_S, read_frame_nil.
+  destruct (nil_or_not (r_unread rs)) as [Eu|Eu].
+  - (* nothing buffered: block *)
+    rewrite step_parse_nil by assumption. rewrite (Hnil Eu), Eu.
+    set (rs0 := {| r_begin := 0; r_unread := []; r_pstate := FindSync1 |}).
+    assert (E0 : shift_if_full cfg rs0 = rstate_init) by apply shift_init. rewrite E0.
+    split; [intros X _; reflexivity|]. split; [intros _; split; [apply quiet_init|reflexivity]|].
+    cbn [In has_err existsb negb]. tauto.
+  - rewrite step_parse_cons by assumption.
+    destruct (parse (r_mode cfg) (r_pstate rs) (r_unread rs)) as [[st' rest] [|h p|e]] eqn:Ep.
+    + (* the parser wants more *)
+      destruct (r_read cfg) eqn:Erd.
+      * set (rs1 := {| r_begin := r_end rs - length rest; r_unread := rest; r_pstate := st' |}).
+        rewrite shift_pstate, shift_unread. cbn [rs1 r_pstate r_unread].
+        split; [intros X _; cbn [app]; apply frames_from_needmore; exact Ep|].
+        split.
+        { intros _. split; [|discriminate]. unfold quiet. rewrite shift_pstate, shift_unread. cbn [r_pstate r_unread].
+          apply parse_mode_idem with (1 := Ep). }
+        cbn [In has_err existsb negb]. tauto.
+      * rewrite shift_init.
+        split.
+        { intros X [HX|HX]; [discriminate|]. subst X. cbn [app rstate_init r_pstate r_unread].
+          rewrite app_nil_r. unfold frames_from. rewrite Ep, parse_mode_init. reflexivity. }
+        split; [intros _; split; [apply quiet_init|reflexivity]|].
+        cbn [In has_err existsb negb]. tauto.
+    + (* a frame: deliver it and go round again *)
+      set (rs1 := {| r_begin := r_end rs - length rest; r_unread := rest; r_pstate := st' |}).
+      pose proof (parse_mode_frame_state _ _ _ _ _ _ _ Ep) as Hst'.
+      pose proof (parse_mode_frame_strict _ _ _ _ _ _ _ Hso Ep) as Hlt.
+      specialize (IH rs1). cbn [rs1 r_unread r_pstate] in IH.
+      assert (Hf1 : (length rest < f)%nat) by lia. rewrite Hst' in IH.
+      specialize (IH Hf1 I (fun _ => eq_refl)).
+      fold rs1. subst st'. fold rs1 in IH.
+      destruct (feed_loop f cfg [] rs1) as [[rs2 obs2] go2].
+      destruct IH as (IH1 & IH2 & IH3 & IH4 & IH5).
+      split.
+      { intros X HX. rewrite (frames_from_frame _ _ _ _ _ _ _ X Ep). cbn [app]. f_equal. apply IH1. exact HX. }
+      split; [exact IH2|]. split; [|split].
+      * intros [Hin|Hin]; [discriminate|auto].
+      * intros [Hin|Hin]; [discriminate|auto].
+      * cbn [has_err existsb orb]. exact IH5.
+    + (* an error: the session ends *)
+      split; [intros X _; rewrite app_nil_r; apply frames_from_err with (1 := Ep)|].
+      split; [discriminate|]. cbn [In has_err existsb negb orb].
+      split; [intros [Hin|[]]; discriminate|]. split; [intros [Hin|[]]; discriminate|reflexivity].
+Qed.
+
+(* the first trip through read_frame when one physical read is queued *)
+Lemma feed_loop_first cfg f c rs rs1 : step_parse cfg rs = (rs1, None) -> c <> [] ->
+  (length c <= r_writable cfg (shift_if_full cfg rs1))%nat ->
+  feed_loop (S f) cfg [c] rs = feed_loop (S f) cfg [] (append_read (shift_if_full cfg rs1) c).
+Proof.
+  intros Hs Hne Hw.
+  assert (E : read_frame cfg [c] rs = read_frame cfg [] (append_read (shift_if_full cfg rs1) c)).
+  { rewrite read_frame_cons, Hs.
+    replace (r_writable cfg (shift_if_full cfg rs1) <? length c)%nat with false
+      by (symmetry; apply Nat.ltb_ge; exact Hw).
+    destruct c; [congruence|reflexivity]. }
+  rewrite !feed_loop_S, E. reflexivity.
+Qed.
+
+Lemma feed_loop_overflow cfg f c rs rs1 : step_parse cfg rs = (rs1, None) ->
+  (r_writable cfg (shift_if_full cfg rs1) < length c)%nat ->
+  feed_loop (S f) cfg [c] rs = (shift_if_full cfg rs1, [OOverflow], false).
+Proof.
+  intros Hs Hw. rewrite feed_loop_S, read_frame_cons, Hs.
+  replace (r_writable cfg (shift_if_full cfg rs1) <? length c)%nat with true
+    by (symmetry; apply Nat.ltb_lt; exact Hw).
+  reflexivity.
+Qed.
+
+Lemma step_parse_quiet cfg rs : r_read cfg = Stream -> quiet (r_mode cfg) rs ->
+  exists rs1, step_parse cfg rs = (rs1, None) /\ r_pstate rs1 = r_pstate rs /\ r_unread rs1 = r_unread rs.
+Proof.
+  intros Hrd Hq. destruct (nil_or_not (r_unread rs)) as [Eu|Eu].
+  - rewrite step_parse_nil by assumption. eexists. split; [reflexivity|]. cbn [r_pstate r_unread]. auto.
+  - rewrite step_parse_cons by assumption. unfold quiet in Hq. rewrite Hq, Hrd.
+    eexists. split; [reflexivity|]. cbn [r_pstate r_unread]. auto.
+Qed.
+
+Lemma feed_fuel_eq (a b : nat) : (a + b + 2 = S (a + b + 1))%nat.
+Proof. lia. Qed.
+
+(* one physical read in Stream mode, from a waiting state *)
+Lemma feed_stream_spec cfg rs c rs' obs go : r_read cfg = Stream -> quiet (r_mode cfg) rs -> c <> [] ->
+  feed cfg rs c = (rs', obs, go) -> ~ In OOverflow obs ->
+  (forall X, frames_from (r_mode cfg) (r_pstate rs) (r_unread rs ++ c ++ X)
+             = obs ++ (if go then frames_from (r_mode cfg) (r_pstate rs') (r_unread rs' ++ X) else [])) /\
+  (go = true -> quiet (r_mode cfg) rs') /\ ~ In OStall obs.
+Proof.
+  intros Hrd Hq Hne Hf Hno. unfold feed in Hf. rewrite feed_fuel_eq in Hf.
+  destruct (step_parse_quiet cfg rs Hrd Hq) as (rs1 & Hs & Hp1 & Hu1).
+  destruct (Nat.ltb_spec (r_writable cfg (shift_if_full cfg rs1)) (length c)) as [Hw|Hw].
+  - rewrite (feed_loop_overflow _ _ _ _ _ Hs Hw) in Hf. inversion Hf; subst. exfalso. apply Hno. left. reflexivity.
+  - rewrite (feed_loop_first _ _ _ _ _ Hs Hne Hw) in Hf.
+    set (rsA := append_read (shift_if_full cfg rs1) c) in *.
+    assert (EpA : r_pstate rsA = r_pstate rs) by (unfold rsA, append_read; cbn [r_pstate]; rewrite shift_pstate; exact Hp1).
+    assert (EuA : r_unread rsA = r_unread rs ++ c) by (unfold rsA, append_read; cbn [r_unread]; rewrite shift_unread, Hu1; reflexivity).
+    pose proof (drain_spec cfg (S (length (r_unread rs) + length c + 1)) rsA) as D.
+    rewrite Hf, EpA, EuA in D.
+    destruct D as (D1 & D2 & D3 & _).
+    + rewrite app_length. lia.
+    + apply quiet_st_ok with (1 := Hq).
+    + intro E. apply app_eq_nil in E. destruct E as [_ E]. congruence.
+    + split; [|split].
+      * intro X. rewrite app_assoc. apply D1. left. exact Hrd.
+      * intro Hg. apply D2. exact Hg.
+      * exact D3.
+Qed.
+
+(* CHUNKING INDEPENDENCE, general form: from any waiting state, whatever the cut of the stream
+   into non-empty physical reads that fit the buffer, the reader delivers what the whole-stream
+   reference delivers on the buffered bytes followed by all the reads *)
+Theorem chunking_independent_from : forall cfg, r_read cfg = Stream -> forall cs rs,
+  quiet (r_mode cfg) rs -> Forall (fun c => c <> []) cs ->
+  ~ In OOverflow (run_feeds cfg rs cs) ->
+  run_feeds cfg rs cs = frames_from (r_mode cfg) (r_pstate rs) (r_unread rs ++ concat cs)
+  /\ ~ In OStall (run_feeds cfg rs cs).
+Proof.
+  intros cfg Hrd. induction cs as [|c cs IH]; intros rs Hq Hne Hno.
+  - cbn [run_feeds concat]. rewrite app_nil_r. unfold frames_from. unfold quiet in Hq. rewrite Hq.
+    split; [reflexivity|intros []].
+  - inversion Hne as [|? ? Hc Hcs]; subst. cbn [run_feeds concat] in *.
+    destruct (feed cfg rs c) as [[rs' obs] go] eqn:Ef.
+    assert (Hno1 : ~ In OOverflow obs).
+    { intro Hin. apply Hno. destruct go; [apply in_or_app; left; exact Hin|exact Hin]. }
+    destruct (feed_stream_spec cfg rs c rs' obs go Hrd Hq Hc Ef Hno1) as (S1 & S2 & S3).
+    rewrite (S1 (concat cs)). destruct go.
+    + assert (Hno2 : ~ In OOverflow (run_feeds cfg rs' cs)).
+      { intro Hin. apply Hno. apply in_or_app. right. exact Hin. }
+      destruct (IH rs' (S2 eq_refl) Hcs Hno2) as [I1 I2]. rewrite I1. split; [reflexivity|].
+      rewrite <- I1. intro Hin. apply in_app_or in Hin. tauto.
+    + rewrite app_nil_r. split; [reflexivity|exact S3].
+Qed.
+
+Theorem chunking_independent : forall mode frag cs,
+  Forall (fun c => c <> []) cs ->
+  ~ In OOverflow (run_link mode Stream frag cs) ->
+  run_link mode Stream frag cs = frames_of mode (concat cs).
+Proof.
+  intros mode frag cs Hne Hno. unfold run_link in *.
+  set (cfg := {| r_mode := mode; r_read := Stream; r_cap := read_buffer_size frag |}) in *.
+  destruct (chunking_independent_from cfg eq_refl cs rstate_init (quiet_init _) Hne Hno) as [H _].
+  rewrite H. cbn [rstate_init r_pstate r_unread app cfg r_mode]. symmetry. apply frames_of_unfold.
+Qed.
+
+(* ---------- fuel: OStall is never produced ------------------------------------------------------ *)
+
+Lemma step_parse_progress cfg rs rs1 o : st_ok (r_pstate rs) -> step_parse cfg rs = (rs1, o) ->
+  st_ok (r_pstate rs1) /\ (length (r_unread rs1) <= length (r_unread rs))%nat /\
+  (forall h p, o = Some (RFrame h p) -> (length (r_unread rs1) < length (r_unread rs))%nat).
+Proof.
+  intros Hso H. destruct (nil_or_not (r_unread rs)) as [Eu|Eu].
+  - rewrite step_parse_nil in H by assumption. inversion H; subst. cbn [r_pstate r_unread length].
+    split; [assumption|]. split; [lia|]. intros h p Hx. discriminate.
+  - rewrite step_parse_cons in H by assumption.
+    destruct (parse (r_mode cfg) (r_pstate rs) (r_unread rs)) as [[st' rest] [|h p|e]] eqn:Ep.
+    + destruct (r_read cfg); inversion H; subst; cbn [r_pstate r_unread rstate_init length].
+      * destruct (parse_mode_suffix _ _ _ _ _ _ Ep) as [q Hq].
+        split; [apply parse_mode_needmore_st_ok with (1 := Ep)|]. split; [rewrite Hq, app_length; lia|].
+        intros h p Hx. discriminate.
+      * split; [exact I|]. split; [lia|]. intros h p Hx. discriminate.
+    + inversion H; subst. cbn [r_pstate r_unread].
+      pose proof (parse_mode_frame_state _ _ _ _ _ _ _ Ep) as ->.
+      pose proof (parse_mode_frame_strict _ _ _ _ _ _ _ Hso Ep) as Hlt.
+      split; [exact I|]. split; [lia|]. intros h0 p0 _. exact Hlt.
+    + inversion H; subst. split; [assumption|]. split; [lia|]. intros h p Hx. discriminate.
+Qed.
+
+Lemma read_frame_progress cfg : forall reads rs rs' reads' r, st_ok (r_pstate rs) ->
+  read_frame cfg reads rs = (rs', reads', r) ->
+  st_ok (r_pstate rs') /\
+  (length (r_unread rs') + length (concat reads') <= length (r_unread rs) + length (concat reads))%nat /\
+  (forall h p, r = RFrame h p ->
+     (length (r_unread rs') + length (concat reads') < length (r_unread rs) + length (concat reads))%nat).
+Proof.
+  induction reads as [|c reads IH]; intros rs rs' reads' r Hso H.
+  - rewrite read_frame_nil in H. destruct (step_parse cfg rs) as [rs1 [r0|]] eqn:Es;
+      destruct (step_parse_progress _ _ _ _ Hso Es) as (P1 & P2 & P3); inversion H; subst.
+    + split; [assumption|]. split; [lia|]. intros h p ->. specialize (P3 h p eq_refl). lia.
+    + rewrite shift_pstate, shift_unread. split; [assumption|]. split; [lia|]. intros h p Hx. discriminate.
+  - rewrite read_frame_cons in H. cbn [concat]. rewrite app_length.
+    destruct (step_parse cfg rs) as [rs1 [r0|]] eqn:Es;
+      destruct (step_parse_progress _ _ _ _ Hso Es) as (P1 & P2 & P3).
+    + inversion H; subst. cbn [concat]. rewrite app_length. split; [assumption|]. split; [lia|].
+      intros h p ->. specialize (P3 h p eq_refl). lia.
+    + destruct (r_writable cfg (shift_if_full cfg rs1) <? length c)%nat.
+      * inversion H; subst. rewrite shift_pstate, shift_unread. split; [assumption|]. split; [lia|].
+        intros h p Hx. discriminate.
+      * destruct c as [|x c].
+        -- inversion H; subst. rewrite shift_pstate, shift_unread. split; [assumption|]. split; [lia|].
+           intros h p Hx. discriminate.
+        -- apply IH in H.
+           ++ unfold append_read in H. cbn [r_pstate r_unread] in H. rewrite shift_unread, app_length in H.
+              destruct H as (Q1 & Q2 & Q3). split; [assumption|]. split; [lia|].
+              intros h p Hx. specialize (Q3 h p Hx). lia.
+           ++ unfold append_read. cbn [r_pstate]. rewrite shift_pstate. exact P1.
+Qed.
+
+Lemma feed_loop_no_stall cfg : forall f reads rs rs' obs go, st_ok (r_pstate rs) ->
+  (length (r_unread rs) + length (concat reads) < f)%nat ->
+  feed_loop f cfg reads rs = (rs', obs, go) -> ~ In OStall obs /\ st_ok (r_pstate rs').
+Proof.
+  induction f as [|f IH]; intros reads rs rs' obs go Hso Hf H; [lia|].
+  rewrite feed_loop_S in H. destruct (read_frame cfg reads rs) as [[rs1 reads1] r] eqn:Er.
+  destruct (read_frame_progress cfg _ _ _ _ _ Hso Er) as (P1 & P2 & P3).
+  destruct r as [h p|e| |].
+  - destruct (feed_loop f cfg reads1 rs1) as [[rs2 obs2] go2] eqn:Ef. inversion H; subst.
+    specialize (P3 h p eq_refl). apply IH in Ef; [|assumption|lia]. destruct Ef as [E1 E2].
+    split; [|exact E2]. intros [Hin|Hin]; [discriminate|auto].
+  - inversion H; subst. split; [|assumption]. intros [Hin|[]]. discriminate.
+  - inversion H; subst. split; [|assumption]. intros [].
+  - inversion H; subst. split; [|assumption]. intros [Hin|[]]. discriminate.
+Qed.
+
+(* the fuel given by `feed` is enough: OStall is never observed.  (The only states excluded are
+   ReadBody _ 0, in which the parser never stops.) *)
+Theorem feed_fuel_sufficient : forall cfg rs c rs' obs go, st_ok (r_pstate rs) ->
+  feed cfg rs c = (rs', obs, go) -> ~ In OStall obs /\ st_ok (r_pstate rs').
+Proof.
+  intros cfg rs c rs' obs go Hso H. unfold feed in H.
+  apply feed_loop_no_stall in H; [exact H|exact Hso|]. cbn [concat]. rewrite app_nil_r. lia.
+Qed.
+
+Theorem run_feeds_no_stall : forall cfg cs rs, st_ok (r_pstate rs) -> ~ In OStall (run_feeds cfg rs cs).
+Proof.
+  intros cfg. induction cs as [|c cs IH]; intros rs Hso; [intros []|].
+  cbn [run_feeds]. destruct (feed cfg rs c) as [[rs' obs] go] eqn:Ef.
+  destruct (feed_fuel_sufficient _ _ _ _ _ _ Hso Ef) as [F1 F2].
+  destruct go; [|exact F1]. intro Hin. apply in_app_or in Hin. destruct Hin as [Hin|Hin]; [auto|].
+  apply (IH rs' F2). exact Hin.
+Qed.
+
+(* ---------- 5. datagram mode never stitches -------------------------------------------------- *)
+
+Lemma feed_datagram_cases cfg c rs' obs go : r_read cfg = Datagram -> c <> [] ->
+  feed cfg rstate_init c = (rs', obs, go) ->
+  (obs = [OOverflow] /\ go = false) \/
+  (obs = frames_of (r_mode cfg) c /\ (go = true -> rs' = rstate_init) /\ has_err obs = negb go).
+Proof.
+  intros Hrd Hne Hf. unfold feed in Hf. rewrite feed_fuel_eq in Hf.
+  assert (Hs : step_parse cfg rstate_init = (rstate_init, None)) by reflexivity.
+  destruct (Nat.ltb_spec (r_writable cfg (shift_if_full cfg rstate_init)) (length c)) as [Hw|Hw].
+  - rewrite (feed_loop_overflow _ _ _ _ _ Hs Hw) in Hf. inversion Hf; subst. left. split; reflexivity.
+  - right. rewrite (feed_loop_first _ _ _ _ _ Hs Hne Hw) in Hf. rewrite shift_init in Hf.
+    pose proof (drain_spec cfg (S (length (r_unread rstate_init) + length c + 1)) (append_read rstate_init c)) as D.
+    rewrite Hf in D. unfold append_read in D. cbn [rstate_init r_begin r_unread r_pstate app length] in D.
+    destruct D as (D1 & D2 & _ & _ & D5).
+    + lia.
+    + exact I.
+    + intro E. congruence.
+    + specialize (D1 [] (or_intror eq_refl)). rewrite !app_nil_r in D1. rewrite frames_of_unfold, D1.
+      destruct go.
+      * destruct (D2 eq_refl) as [_ D2']. rewrite (D2' Hrd). cbn [rstate_init r_pstate r_unread].
+        unfold frames_from. rewrite parse_mode_init, app_nil_r. auto.
+      * rewrite app_nil_r. split; [reflexivity|]. split; [discriminate|exact D5].
+Qed.
+
+(* after a read whose bytes did not complete a frame the reader is back in its initial state:
+   nothing of that read survives *)
+Theorem datagram_feed_resets : forall cfg c rs' obs, r_read cfg = Datagram ->
+  feed cfg rstate_init c = (rs', obs, true) -> rs' = rstate_init.
+Proof.
+  intros cfg c rs' obs Hrd Hf. destruct (nil_or_not c) as [Ec|Ec].
+  - subst c. exfalso. unfold feed in Hf. cbn [length rstate_init r_unread Nat.add] in Hf.
+    rewrite feed_loop_S, read_frame_cons in Hf.
+    assert (Hs : step_parse cfg rstate_init = (rstate_init, None)) by reflexivity. rewrite Hs in Hf.
+    cbn [length] in Hf.
+    destruct (r_writable cfg (shift_if_full cfg rstate_init) <? 0)%nat eqn:E; [apply Nat.ltb_lt in E; lia|discriminate].
+  - destruct (feed_datagram_cases cfg c rs' obs true Hrd Ec Hf) as [[_ Hx]|(_ & H & _)]; [discriminate|].
+    apply H. reflexivity.
+Qed.
+
+(* the per-datagram reference: the frames of each read parsed ALONE, up to the first read that
+   contains an error *)
+Fixpoint dgram_frames (mode : error_mode) (cs : list (list N)) : list robs :=
+  match cs with
+  | [] => []
+  | c :: cs' =>
+      let obs := frames_of mode c in
+      if has_err obs then obs else obs ++ dgram_frames mode cs'
+  end.
+
+Theorem datagram_no_stitch : forall cfg cs, r_read cfg = Datagram ->
+  Forall (fun c => c <> []) cs ->
+  ~ In OOverflow (run_feeds cfg rstate_init cs) ->
+  run_feeds cfg rstate_init cs = dgram_frames (r_mode cfg) cs.
+Proof.
+  intros cfg cs Hrd. induction cs as [|c cs IH]; intros Hne Hno; [reflexivity|].
+  inversion Hne as [|? ? Hc Hcs]; subst. cbn [run_feeds dgram_frames] in *.
+  destruct (feed cfg rstate_init c) as [[rs' obs] go] eqn:Ef.
+  destruct (feed_datagram_cases cfg c rs' obs go Hrd Hc Ef) as [[-> ->]|(Ho & Hg & He)].
+  - exfalso. apply Hno. left. reflexivity.
+  - rewrite <- Ho, He. destruct go; cbn [negb]; [|reflexivity].
+    rewrite (Hg eq_refl) in *. f_equal. apply IH; [exact Hcs|].
+    intro Hin. apply Hno. apply in_or_app. right. exact Hin.
+Qed.
